@@ -28,9 +28,28 @@
   otherwise ABORT (which reason), no join            abort_otherwise, abort_reason_table
   never attached without WELCOME                     never_attached
   nothing a refused client sends is read             refused_reads_nothing_more
+   - "nothing it sends is routed": the Auth model    Nexus.C11.C11_unknown_session (Nexus/Props/C11.lean):
+     has no routing state; the routing half of the     a session key the router does not know (no `join`
+     clause is a theorem of the L2 router model         happened: `attach … .joined = false`, never_attached)
+                                                       changes nothing and nothing is observed, whatever
+                                                       operation it submits (audit D a5; cross-reference
+                                                       only, the two models are not composed)
   ticket: response = stored ticket                   ticket_response_is_stored_ticket
+  ticket: NOT bound to the handshake (DEVIATION      ticket_replay_accepted, ticketAuth_env_irrelevant,
+   from "a response captured from another             replay_never_succeeds_ticket_full (def),
+   handshake never succeeds"; bearer secret,           replay_never_succeeds_ticket_full_fails,
+   faithful to Go)                                     ticket_replay_witness
   wampcra: response = HMAC(key, THIS challenge)      wampcra_bound_to_this_challenge,
                                                      wampcra_replay_rejected
+  wampcra: the challenge string determines the       craChallengeStr_sid_inj (Nexus/Auth/WpDChallenge.lean),
+   session id; replay from a handshake with            wampcra_replay_rejected' (hypotheses: other session
+   another session id is refused                       id, MAC injective for this key)
+  cryptosign: a signature that opens to another      cryptosign_replay_rejected (Facts.gen),
+   challenge is refused (general)                      cryptosign_replay_rejected_of_checks
+  a user whose key is nil (key store answers         wampcra_nil_key_public_mac, wampcra_nil_key_witness,
+   (nil, nil)): EXCEPTION to "only authenticated       cryptosign_nil_key_zero_key,
+   clients" — MAC under the empty key / signature      cryptosign_nil_key_witness
+   under the all-zero public key (faithful to Go)
   cryptosign: opens to THIS challenge                bound_to_this_challenge_cryptosign (the full
                                                      statement `.._full Facts.gen`, proved since the
                                                      fix of F7), .._gen, .._partial;
@@ -54,9 +73,25 @@
   shown to others = recorded                         clean_preserves_identity
   transport.auth is not shown                        clean_hides_transport_auth,
                                                      clean_transport_auth_non_dict_shown
+  the L2 model's copy of cleanSessionDetails         clean_models_agree, clean_models_agree_iff,
+   (what session.get / on_join of L2 use) agrees       clean_models_agree_modulo_nil, clean_models_agree_get?,
+   with the copy used here                             clean_models_disagree_witness — namespace Nexus.C09,
+                                                       file Nexus/L2/Proofs/WpDCleanAgree.lean (not imported
+                                                       here: it depends on Nexus.L2.Realm)
+  "… ALWAYS": after the attach (L2 realm model)      identity_stable_step, identity_stable_lookup: in a
+   - the details of an attached session never         realm without `wamp.session.modify_details`
+     change …                                          (`Config.metaModify = false`,
+                                                       `Realm.WpD.create_no_modify`) no input changes the
+                                                       details of any attached session
+   - … EXCEPT through `wamp.session.modify_details`   modify_details_rewrites_authid: one CALL by an
+     (DEVIATION from "always come from the router      ordinary session rewrites authid/authrole of ANOTHER
+     and the authenticator"; faithful to Go,           session (full `Realm.step`, evaluated)
+     realm.go:1365-1382: only `session` is protected)  — namespace Nexus.C09, file
+                                                       Nexus/L2/Proofs/WpDIdentity.lean (not imported here)
 -/
 import Nexus.Auth.Shape
 import Nexus.Auth.Rest
+import Nexus.Auth.WpDChallenge
 
 namespace Nexus.C09
 open Nexus Nexus.Auth
@@ -1160,5 +1195,380 @@ example : (attach Facts.gen exRouter exEnv [⟨0, .msg (.hello "nx" [("roles", .
     = .abort Gen.N.ErrNoSuchRealm .noSuchRealm := rfl
 example : (attach Facts.gen exRouter exEnv [⟨0, .msg (.other 16)⟩]).outcome
     = .abort Gen.N.ErrProtocolViolation (.notHello 16) := rfl
+
+/-! ## Replays, method by method (audit D: a1, a2, a3) -/
+
+/-! ### ticket: a recorded DEVIATION from "a response captured from another handshake never succeeds" -/
+
+/-- `TicketAuthenticator.Authenticate` reads nothing of the handshake it runs in — not the session
+    id, not a nonce, not the clock, no cryptographic oracle — except whether the CHALLENGE can be
+    queued: its whole result (transcript, verdict, unread client actions) is the same in any two
+    handshakes.  (ticket.go: the CHALLENGE carries no extra, `authRsp.Signature` is compared with
+    `string(ticket)`, ticket.go:103.) -/
+theorem ticketAuth_env_irrelevant (ks : KeyStore) (t : Nat) (env₁ env₂ : Env) (details : Dict)
+    (script : List Arrival) (hb : env₁.challengeBlocked = env₂.challengeBlocked) :
+    ticketAuth ks t env₁ details script = ticketAuth ks t env₂ details script := by
+  unfold ticketAuth
+  rw [hb]
+
+/-- `ticket_replay_accepted` (audit D a1/d4) — DEVIATION, recorded.  The property text says that for
+    the challenge methods "(wampcra, ticket, cryptosign) … a response captured from another handshake
+    never succeeds".  For ticket the opposite holds: whatever the client sent in a handshake (`env₁`)
+    in which the ticket authenticator accepted it, the same client actions are accepted, with the
+    same WELCOME details, in EVERY other handshake (`env₂`: any session id, nonces, clock, oracle)
+    whose CHALLENGE can be queued.  Faithful to Go and to the WAMP specification: a ticket is a
+    bearer secret, the ticket CHALLENGE is empty and there is nothing for the response to be bound
+    to.  The clause of the property holds for wampcra (`wampcra_replay_rejected'`) and cryptosign
+    (`cryptosign_replay_rejected`) only; `replay_never_succeeds_ticket_full_fails` is its refutation
+    for ticket. -/
+theorem ticket_replay_accepted {ks : KeyStore} {t : Nat} {env₁ env₂ : Env} {details : Dict}
+    {script : List Arrival} {w : Dict}
+    (h : (ticketAuth ks t env₁ details script).res = .ok w)
+    (hsend : env₂.challengeBlocked = false) :
+    (ticketAuth ks t env₂ details script).res = .ok w := by
+  obtain ⟨ha, hfin, hcase⟩ := ticketAuth_ok h
+  rcases hcase with ⟨hal, _⟩ | ⟨_, _, hb1, _⟩
+  · simp only [ticketAuth, beq_iff_eq, ha, hal, if_true, if_false]
+    exact hfin
+  · rw [← ticketAuth_env_irrelevant ks t env₁ env₂ details script (hb1.trans hsend.symm)]
+    exact h
+
+/-- The clause of the property, read literally for ticket: a response that the ticket authenticator
+    accepted (on the challenge path) in one handshake is refused in a handshake with another
+    session id. -/
+def replay_never_succeeds_ticket_full : Prop :=
+  ∀ (ks : KeyStore) (t : Nat) (env₁ env₂ : Env) (details : Dict) (script : List Arrival) (w : Dict),
+    (ticketAuth ks t env₁ details script).res = .ok w →
+    alreadyAuth ks.bypass (details.optString "authid") details = false →
+    env₂.o.sid ≠ env₁.o.sid →
+    ∀ w', (ticketAuth ks t env₂ details script).res ≠ .ok w'
+
+/-- another handshake: other session id, other nonce, other clock, other random authid -/
+def exEnv' : Env :=
+  { exEnv with o := { exOracle with sid := 43, chalNonce := some "N'", now := "T'", authidRand := 7 } }
+
+/-- `replay_never_succeeds_ticket_full_fails`: that literal reading is FALSE (of the model and of the
+    Go code alike; not a defect — see `ticket_replay_accepted`).  Witness: alice's ticket `t1`,
+    presented in the handshake with session id 42 and again in the one with session id 43. -/
+theorem replay_never_succeeds_ticket_full_fails : ¬ replay_never_succeeds_ticket_full := by
+  intro hfull
+  have h1 : (ticketAuth exKS 0 exEnv [("authid", .str "alice")] [⟨0, .msg (.authenticate "t1" [])⟩]).res =
+      .ok (stdWelcome "alice" "user" "ticket" "static") := by
+    simp [ticketAuth, exchange, recvTimeout, crTimeout, Gen.Auth.defaultCRAuthTimeoutMs, andThen, ticketMatches,
+      storedTicket, exKS, exEnv, alreadyAuth, finishWelcome, roleOr, Dict.optString, Dict.get?]
+  exact hfull exKS 0 exEnv exEnv' _ _ _ h1 rfl (by decide) _ (ticket_replay_accepted h1 rfl)
+
+/-- the hypotheses of `ticket_replay_accepted` are met by that pair of handshakes -/
+example : (ticketAuth exKS 0 exEnv' [("authid", .str "alice")] [⟨0, .msg (.authenticate "t1" [])⟩]).res =
+    .ok (stdWelcome "alice" "user" "ticket" "static") :=
+  ticket_replay_accepted (env₁ := exEnv)
+    (by simp [ticketAuth, exchange, recvTimeout, crTimeout, Gen.Auth.defaultCRAuthTimeoutMs, andThen,
+          ticketMatches, storedTicket, exKS, exEnv, alreadyAuth, finishWelcome, roleOr, Dict.optString, Dict.get?])
+    rfl
+
+/-- the two client messages of the replay: HELLO as alice offering ticket, AUTHENTICATE with `t1` -/
+def ticketReplayArrivals : List Arrival :=
+  [⟨0, .msg (exHello [.str "ticket"] "alice")⟩, ⟨0, .msg (.authenticate "t1" [])⟩]
+
+/-- `ticket_replay_witness`: the same, end to end through `attach`: against the router `exRouter`
+    the SAME two client messages are welcomed as alice in every handshake of a remote peer —
+    whatever session id the router draws, whatever its nonces, clock and crypto answer. -/
+theorem ticket_replay_witness (env : Env) (hl : env.isLocal = false) (ht : env.transport = [])
+    (hb : env.challengeBlocked = false) :
+    ∃ sess, (attach Facts.gen exRouter env ticketReplayArrivals).outcome =
+        .welcome env.o.sid sess
+          (((stdWelcome "alice" "user" "ticket" "static").set "authmethod" (.str "ticket")).set "roles"
+            env.routerRoles) ∧
+      sess.get? "authid" = some (.str "alice") := by
+  have h : ∃ sess, (attach Facts.gen exRouter env ticketReplayArrivals).outcome =
+        .welcome env.o.sid sess
+          (((stdWelcome "alice" "user" "ticket" "static").set "authmethod" (.str "ticket")).set "roles"
+            env.routerRoles) := by
+    refine ⟨_, attach_of_welcomed ⟨0, "r1", _, _, _, none, rfl, by decide, by decide,
+      ⟨rfl, rfl, Or.inl ⟨rfl, rfl⟩⟩, rfl, ?_, rfl, rfl, rfl⟩⟩
+    refine authClient_ok_iff.mpr (Or.inr ⟨by simp [hl], .ticket exKS 0, "ticket", _, ?_, ?_, rfl⟩)
+    · simp only [helloDetails, ht]; rfl
+    · simp [runAuth, helloDetails, ht, ticketAuth, exchange, recvTimeout, crTimeout,
+        Gen.Auth.defaultCRAuthTimeoutMs, andThen, ticketMatches, storedTicket, exKS, hb, alreadyAuth,
+        finishWelcome, roleOr, Dict.optString, Dict.get?]
+  obtain ⟨sess, h⟩ := h
+  exact ⟨sess, h, identity_from_welcome h (by decide) (by decide) rfl⟩
+
+example : ∃ sess w, (attach Facts.gen exRouter exEnv ticketReplayArrivals).outcome = .welcome 42 sess w ∧
+    sess.get? "authid" = some (.str "alice") :=
+  let ⟨sess, h, ha⟩ := ticket_replay_witness exEnv rfl rfl rfl; ⟨sess, _, h, ha⟩
+example : ∃ sess w, (attach Facts.gen exRouter exEnv' ticketReplayArrivals).outcome = .welcome 43 sess w ∧
+    sess.get? "authid" = some (.str "alice") :=
+  let ⟨sess, h, ha⟩ := ticket_replay_witness exEnv' rfl rfl rfl; ⟨sess, _, h, ha⟩
+
+/-! ### wampcra: a replay from a handshake with another session id is refused -/
+
+/-- `craChallengeStr_sid_inj` (audit D a2/d2): the challenge string `makeChallengeStr` renders
+    determines the session id it was rendered for — two challenge strings that are equal were made
+    for the same session id, whatever nonce, provider, authid, timestamp and authrole went into them
+    (hostile ones included: they all come before the last `:` of the string, and the regenerated
+    format `Gen.Auth.craChallengeFormat` ends in `"session":%d }`).  Since the router draws a fresh
+    session id per handshake (`wamp.GlobalID`, C19), challenge strings of different handshakes
+    differ.  Proof: Nexus/Auth/WpDChallenge.lean. -/
+theorem craChallengeStr_sid_inj {n p a t r n' p' a' t' r' : String} {s₁ s₂ : Nat}
+    (h : craChallengeStr n p a t r s₁ = craChallengeStr n' p' a' t' r' s₂) : s₁ = s₂ :=
+  Auth.WpD.craChallengeStr_sid_inj h
+
+/-- `wampcra_replay_rejected'` (audit D a2/d2): `wampcra_replay_rejected` with its bundled hypothesis
+    split into the part that is a property of the code and the part that is an assumption on the
+    primitive.  A response that is the MAC (under the key the router holds for the claimed authid)
+    of the challenge string of a handshake with ANOTHER SESSION ID — any nonce, provider, authid,
+    timestamp, authrole — is refused in this handshake, provided only that (ii) the MAC is injective
+    for this key (`hinj`: distinct messages have distinct MACs — the collision-resistance assumption,
+    out of scope as in the trusted base) and (i) the session ids differ (`hsid`).  The other
+    hypotheses merely say what a replay is: the response arrives in time (`hans`), the key store did
+    not vouch for the client without a challenge (`hb`, the `AlreadyAuth` exception), and the
+    response was valid for that other challenge (`hother`). -/
+theorem wampcra_replay_rejected' {ks : KeyStore} {t : Nat} {env : Env} {details : Dict}
+    {script : List Arrival} {sig : String} {rest : List Arrival}
+    {otherNonce otherProvider otherAuthid otherTs otherRole : String} {otherSid : Nat}
+    (hans : AnswersInTime (crTimeout t) script sig rest)
+    (hb : alreadyAuth ks.bypass (details.optString "authid") details = false)
+    (hother : ∃ sb, env.o.b64decode sig = some sb ∧
+        sb = env.o.hmac (craKey ks env.o (details.optString "authid"))
+          (craChallengeStr otherNonce otherProvider otherAuthid otherTs otherRole otherSid))
+    (hsid : otherSid ≠ env.o.sid)
+    (hinj : ∀ a b, env.o.hmac (craKey ks env.o (details.optString "authid")) a =
+        env.o.hmac (craKey ks env.o (details.optString "authid")) b → a = b) :
+    ∀ w, (craAuth ks t env details script).res ≠ .ok w := by
+  intro w h
+  obtain ⟨nonce, _, _, _, hn, _⟩ := wampcra_bound_to_this_challenge h hb
+  refine wampcra_replay_rejected hn hans hb hother ?_ w h
+  intro e
+  exact hsid (craChallengeStr_sid_inj (hinj _ _ e))
+
+/-- a toy MAC that is injective in the message (the UTF-8 bytes of the message; the key is ignored)
+    and a toy base64 (the UTF-8 bytes of the text) -/
+def injOracle (sid : Nat) (nonce : String) : Oracle :=
+  { exOracle with sid := sid, chalNonce := some nonce,
+                  b64decode := fun s => some s.toUTF8.data.toList,
+                  hmac := fun _ m => m.toUTF8.data.toList }
+
+/-- that toy MAC is injective in the message, for every key (hypothesis `hinj` below is satisfiable) -/
+theorem injOracle_hmac_inj (sid : Nat) (nonce : String) (k : Bytes) (a b : String)
+    (h : (injOracle sid nonce).hmac k a = (injOracle sid nonce).hmac k b) : a = b := by
+  have h1 : a.toUTF8.data.toList = b.toUTF8.data.toList := h
+  have h2 : a.toUTF8.data = b.toUTF8.data := Array.toList_inj.mp h1
+  have h3 : a.toUTF8 = b.toUTF8 := by
+    cases ha : a.toUTF8; cases hb : b.toUTF8; rw [ha, hb] at h2; simp at h2; rw [h2]
+  exact String.toByteArray_inj.mp h3
+
+/-- the hypotheses of `wampcra_replay_rejected'` are satisfiable: under the injective toy MAC, the
+    response that was valid in ANY handshake with session id 41 (whatever its nonce, timestamp, …)
+    is refused in the handshake with session id 42 -/
+example (n1 p a ts r : String) : ∀ w,
+    (craAuth exKS 0 { exEnv with o := injOracle 42 "N2" } [("authid", .str "alice")]
+      [⟨0, .msg (.authenticate (craChallengeStr n1 p a ts r 41) [])⟩]).res ≠ .ok w :=
+  wampcra_replay_rejected' (otherNonce := n1) (otherProvider := p) (otherAuthid := a)
+    (otherTs := ts) (otherRole := r) (otherSid := 41)
+    ⟨0, [], rfl, by decide⟩ rfl ⟨_, rfl, by simp only [injOracle]⟩ (by decide) (injOracle_hmac_inj 42 "N2" _)
+
+/-! ### cryptosign: a signature that opens to another challenge is refused -/
+
+/-- `cryptosign_replay_rejected_of_checks`: for every `fx` whose `verifySignature` compares the opened
+    message with the challenge. -/
+theorem cryptosign_replay_rejected_of_checks {fx : Facts} (hcc : fx.csChecksChallenge = true)
+    {ks : KeyStore} {t : Nat} {env : Env} {details : Dict} {script : List Arrival}
+    {sig : String} {rest : List Arrival} {key : Option Bytes} {sb other : Bytes}
+    (hans : AnswersInTime (crTimeout t) script sig rest)
+    (hb : alreadyAuth ks.bypass (details.optString "authid") details = false)
+    (hk : ks.authKey (details.optString "authid") "cryptosign" = .ok key)
+    (hd : env.o.hexdecode sig = some sb)
+    (ho : env.o.signOpen sb (pad32 (key.getD [])) = some other)
+    (hne : env.o.csChallenge ≠ some other) :
+    ∀ w, (csAuth fx.csChecksChallenge ks t env details script).res ≠ .ok w := by
+  intro w h
+  obtain ⟨challenge, sig', key', sb', opened, hc, _, hans', hk', hd', _, ho', heq⟩ :=
+    bound_to_this_challenge_cryptosign_partial fx hcc ks t env details script w h hb
+  obtain ⟨d, e, hs, _⟩ := hans
+  obtain ⟨d', e', hs', _⟩ := hans'
+  rw [hs] at hs'
+  simp at hs'
+  obtain ⟨⟨_, hsig, _⟩, _⟩ := hs'
+  subst hsig
+  rw [hk] at hk'
+  simp at hk'
+  subst hk'
+  rw [hd] at hd'
+  simp at hd'
+  subst hd'
+  rw [ho] at ho'
+  simp at ho'
+  subst ho'
+  exact hne (heq ▸ hc)
+
+/-- `cryptosign_replay_rejected` (audit D a3/d3), general, for the source as it is now: a response
+    whose signature is VALID under the stored public key but opens to a message other than the
+    challenge issued in this handshake (`hne`) — e.g. a response captured from another handshake, or
+    any other message the key's owner ever signed — is refused, for every key store, oracle, HELLO
+    and script.  (`cryptosign_replay_witness` is one instance, end to end.) -/
+theorem cryptosign_replay_rejected
+    {ks : KeyStore} {t : Nat} {env : Env} {details : Dict} {script : List Arrival}
+    {sig : String} {rest : List Arrival} {key : Option Bytes} {sb other : Bytes}
+    (hans : AnswersInTime (crTimeout t) script sig rest)
+    (hb : alreadyAuth ks.bypass (details.optString "authid") details = false)
+    (hk : ks.authKey (details.optString "authid") "cryptosign" = .ok key)
+    (hd : env.o.hexdecode sig = some sb)
+    (ho : env.o.signOpen sb (pad32 (key.getD [])) = some other)
+    (hne : env.o.csChallenge ≠ some other) :
+    ∀ w, (csAuth Facts.gen.csChecksChallenge ks t env details script).res ≠ .ok w :=
+  cryptosign_replay_rejected_of_checks (by decide) hans hb hk hd ho hne
+
+/-- its hypotheses are satisfiable: the captured response of the F7 witness opens to `[2]`, the
+    challenge of this handshake is `[1]` -/
+example : ∀ w,
+    (csAuth Facts.gen.csChecksChallenge witnessKS 0 (witnessEnv [1]) witnessDetails witnessScript).res ≠ .ok w :=
+  cryptosign_replay_rejected (other := [2]) ⟨0, [], rfl, by decide⟩ rfl rfl rfl rfl (by decide)
+
+/-! ## Users without a key: an exception to "only authenticated clients" (audit D b/d6)
+
+  `KeyStore.AuthKey` returns `([]byte, error)`.  When it answers `(nil, nil)` for a user — "known,
+  no key for this method"; the key store of the repository's own tests does so for every method but
+  wampcra and ticket (test/auth_test.go:183-199) — the ticket authenticator refuses
+  (`ticket == nil ||`, ticket.go:103), but wampcra and cryptosign go on with the nil slice:
+    * crauth.go:66-74 tests only `err`; crauth.go:114 `crsign.VerifySignature(sig, chStr, key)` and
+      crsign.go:24-28 `hmac.New(sha256.New, key)` accept a nil key: the expected response is the
+      HMAC-SHA256 under the EMPTY key of the challenge string, which the client was just sent
+      (crauth.go:82) — computable by anyone;
+    * cryptosign.go:64-67 tests only `err`; cryptosign.go:136-138 `var pubkey [32]byte;
+      copy(pubkey[:], publicKey)` leaves the ALL-ZERO public key, and `sign.Open` decides.
+  The model is faithful (`craKey … = k.getD []`, `pad32 (key.getD [])`); the theorems below record
+  the behaviour.  Whether a signature under the all-zero Ed25519 key can be produced is a question
+  about the primitive and outside the model (`signOpen` is an oracle). -/
+
+/-- `wampcra_nil_key_public_mac`: if the key store answers `(nil, nil)` for the claimed authid, the
+    wampcra authenticator welcomes whoever answers the CHALLENGE with (the base64 of) the MAC under
+    the EMPTY key of the challenge string — and that string is public: it is the `challenge` extra
+    of the CHALLENGE just sent to the client.  No secret is involved: an exception to "only
+    authenticated clients join".  Faithful to Go (crauth.go:66-74, :114; crsign.go:24-28). -/
+theorem wampcra_nil_key_public_mac {ks : KeyStore} {t : Nat} {env : Env} {details : Dict}
+    {script : List Arrival} {sig : String} {rest : List Arrival} {nonce : String}
+    (hid : details.optString "authid" ≠ "")
+    (hk : ks.authKey (details.optString "authid") "wampcra" = .ok none)
+    (hbp : ks.bypass = none)
+    (hn : env.o.chalNonce = some nonce)
+    (hsend : env.challengeBlocked = false)
+    (hans : AnswersInTime (crTimeout t) script sig rest)
+    (hsig : env.o.b64decode sig =
+      some (env.o.hmac [] (craChallengeOf ks env (details.optString "authid") nonce))) :
+    (craAuth ks t env details script).sent =
+      [.challenge "wampcra" (craExtra ks (details.optString "authid")
+        (craChallengeOf ks env (details.optString "authid") nonce))] ∧
+    (craExtra ks (details.optString "authid")
+        (craChallengeOf ks env (details.optString "authid") nonce)).get? "challenge" =
+      some (.str (craChallengeOf ks env (details.optString "authid") nonce)) ∧
+    (craAuth ks t env details script).res =
+      .ok (stdWelcome (details.optString "authid") (roleOr ks (details.optString "authid") "user")
+        "wampcra" ks.provider) := by
+  have hkey : craKey ks env.o (details.optString "authid") = [] := by simp [craKey, hk]
+  have hv : craVerify env.o sig (craChallengeOf ks env (details.optString "authid") nonce)
+      (craKey ks env.o (details.optString "authid")) = true := by
+    rw [hkey]; exact craVerify_iff.mpr ⟨_, hsig, rfl⟩
+  have hal : alreadyAuth ks.bypass (details.optString "authid") details = false := by
+    rw [hbp]; rfl
+  refine ⟨?_, ?_, ?_⟩
+  · simp only [craAuth, beq_iff_eq, hid, hal, hn, hsend, if_false, exchange_of_answer hans]
+    simp
+  · unfold craExtra; split <;> rfl
+  · simp only [craAuth, beq_iff_eq, hid, hal, hn, hsend, if_false, exchange_of_answer hans, andThen, hv,
+      if_true]
+    rw [hbp]
+    rfl
+
+/-- `cryptosign_nil_key_zero_key`: if the key store answers `(nil, nil)` for the claimed authid, the
+    cryptosign authenticator verifies the response against the ALL-ZERO 32-byte public key: whoever
+    presents a 96-byte signed message that `sign.Open` opens under that key to this handshake's
+    challenge is welcomed under the claimed authid (with or without the challenge comparison).
+    Faithful to Go (cryptosign.go:64-67, :136-138); an exception to "only authenticated clients". -/
+theorem cryptosign_nil_key_zero_key {checks : Bool} {ks : KeyStore} {t : Nat} {env : Env} {details : Dict}
+    {script : List Arrival} {sig : String} {rest : List Arrival} {authrole : String}
+    {challenge sb : Bytes}
+    (hid : details.optString "authid" ≠ "")
+    (hr : ks.authRole (details.optString "authid") = .ok authrole)
+    (hk : ks.authKey (details.optString "authid") "cryptosign" = .ok none)
+    (hbp : ks.bypass = none)
+    (hc : env.o.csChallenge = some challenge)
+    (hsend : env.challengeBlocked = false)
+    (hans : AnswersInTime (crTimeout t) script sig rest)
+    (hd : env.o.hexdecode sig = some sb) (hl : sb.length = Gen.Auth.cryptosignSignedLen)
+    (ho : env.o.signOpen sb (List.replicate 32 0) = some challenge) :
+    (csAuth checks ks t env details script).res =
+      .ok (stdWelcome (details.optString "authid") authrole "cryptosign" ks.provider) := by
+  have hal : alreadyAuth ks.bypass (details.optString "authid") details = false := by
+    rw [hbp]; rfl
+  have hpad : pad32 ((none : Option Bytes).getD []) = List.replicate 32 0 := by decide
+  have hv : csVerify checks env.o sig ((none : Option Bytes).getD []) challenge = .ok true :=
+    csVerify_true_iff.mpr ⟨sb, challenge, hd, hl, by rw [hpad]; exact ho, fun _ => rfl⟩
+  simp only [csAuth, beq_iff_eq, hid, hr, hal, hk, hc, hsend, if_false, exchange_of_answer hans, andThen,
+    csDecide, hv]
+  simp
+
+/-! The witnesses, end to end.  `exKS` knows `bob` (role `user`) and answers `(nil, nil)` for his key,
+    whatever the method.  Toy primitives that DO depend on the key: the MAC of any message is the key
+    followed by the byte 9 (so the MAC under the empty key is `[9]`, under alice's key `[1,2,3,9]`);
+    one text base64-decodes to `[9]`; `sign.Open` verifies under the all-zero key only. -/
+
+def keyedOracle : Oracle :=
+  { exOracle with
+      b64decode := fun s => if s = "mac-under-the-empty-key" then some [9] else none,
+      hmac := fun k _ => k ++ [9],
+      hexdecode := fun s => if s = "signed-with-the-zero-key" then some (List.replicate 96 7) else none,
+      signOpen := fun _ pk => if pk = List.replicate 32 0 then some [1] else none }
+
+def keyedEnv : Env := { isLocal := false, routerRoles := .null, o := keyedOracle }
+
+def nilKeyRouter : RouterCfg :=
+  { realms := [{ uri := "r1", authenticators := [.wampcra exKS 0, .cryptosign exKS 0] }], template := none }
+
+/-- the challenge string the router sends to "bob" in this handshake -/
+def bobChallenge : String := craChallengeStr "N" "static" "bob" "T" "user" 42
+
+/-- `wampcra_nil_key_witness`: a remote client says it is bob, is sent `bobChallenge`, answers with the
+    MAC under the EMPTY key and is welcomed and recorded as bob — while the very same answer given
+    in alice's name, who has a key, is refused. -/
+theorem wampcra_nil_key_witness :
+    exKS.authKey "bob" "wampcra" = .ok none ∧
+    (∃ sess w,
+      (attach Facts.gen nilKeyRouter keyedEnv
+        [⟨0, .msg (exHello [.str "wampcra"] "bob")⟩,
+         ⟨0, .msg (.authenticate "mac-under-the-empty-key" [])⟩]).outcome = .welcome 42 sess w ∧
+      (attach Facts.gen nilKeyRouter keyedEnv
+        [⟨0, .msg (exHello [.str "wampcra"] "bob")⟩,
+         ⟨0, .msg (.authenticate "mac-under-the-empty-key" [])⟩]).sent =
+          [.challenge "wampcra" [("challenge", .str bobChallenge)], .welcome 42 w] ∧
+      sess.get? "authid" = some (.str "bob") ∧ sess.get? "authrole" = some (.str "user")) ∧
+    (attach Facts.gen nilKeyRouter keyedEnv
+      [⟨0, .msg (exHello [.str "wampcra"] "alice")⟩,
+       ⟨0, .msg (.authenticate "mac-under-the-empty-key" [])⟩]).outcome =
+        .abort Gen.N.ErrAuthenticationFailed .invalidSignature := by
+  refine ⟨rfl, ⟨_, _, rfl, rfl, ?_, ?_⟩, rfl⟩ <;> rfl
+
+/-- `cryptosign_nil_key_witness`: the same for cryptosign — bob's key is nil, the response verifies
+    under the all-zero public key and opens to this handshake's challenge `[1]`: welcomed as bob. -/
+theorem cryptosign_nil_key_witness :
+    exKS.authKey "bob" "cryptosign" = .ok none ∧
+    ∃ sess w,
+      (attach Facts.gen nilKeyRouter keyedEnv
+        [⟨0, .msg (exHello [.str "cryptosign"] "bob")⟩,
+         ⟨0, .msg (.authenticate "signed-with-the-zero-key" [])⟩]).outcome = .welcome 42 sess w ∧
+      sess.get? "authid" = some (.str "bob") := by
+  refine ⟨rfl, _, _, rfl, ?_⟩
+  rfl
+
+/-- the hypotheses of the two general theorems are met by those handshakes -/
+example : (craAuth exKS 0 keyedEnv [("authid", .str "bob")]
+      [⟨0, .msg (.authenticate "mac-under-the-empty-key" [])⟩]).res =
+    .ok (stdWelcome "bob" "user" "wampcra" "static") :=
+  (wampcra_nil_key_public_mac (nonce := "N") (by decide) rfl rfl rfl rfl ⟨0, [], rfl, by decide⟩ rfl).2.2
+example : (csAuth true exKS 0 keyedEnv [("authid", .str "bob")]
+      [⟨0, .msg (.authenticate "signed-with-the-zero-key" [])⟩]).res =
+    .ok (stdWelcome "bob" "user" "cryptosign" "static") :=
+  cryptosign_nil_key_zero_key (challenge := [1]) (by decide) rfl rfl rfl rfl rfl ⟨0, [], rfl, by decide⟩ rfl
+    (by decide) rfl
 
 end Nexus.C09
